@@ -215,6 +215,14 @@ func c02concurrent(run *Run) {
 				bad++
 				run.Fail("xconn:concurrent:response-delivered-twice", fmt.Sprintf("stream with token %d received %d deliveries", rec.tok, len(recv)), map[string]interface{}{"part": "concurrent", "seed": seed, "generator": gen})
 			}
+			rec.mu.Lock()
+			destroys, resets := rec.destroys, rec.resets
+			rec.mu.Unlock()
+			if destroys != 1 || resets > 1 {
+				// answered, reset by its holder, or reset by the closing connection - whichever came first, exactly once
+				bad++
+				run.Fail("xconn:concurrent:stream-end-not-exactly-once", fmt.Sprintf("stream with token %d: %d OnDestroyStream and %d OnResetStream calls after the connection closed (deliveries: %d)", rec.tok, destroys, resets, len(recv)), map[string]interface{}{"part": "concurrent", "seed": seed, "generator": gen})
+			}
 			for _, t := range recv {
 				if t != rec.tok {
 					bad++
